@@ -404,11 +404,96 @@ def _helper_info(fn, closure=False):
                 return None
         if isinstance(n, ast.Name) and n.id in ("locals", "vars", "super"):
             return None
-    if stored & set(params):
-        return None
     single_tail = (not returns) or (len(returns) == 1 and body[-1] is returns[0])
     return {"params": params, "self": is_method_self, "body": body, "locals": stored,
-            "single_tail": single_tail, "name": fn.name}
+            "single_tail": single_tail, "name": fn.name,
+            # parameters the helper re-binds (`if v is None: v = 0 ... return v`)
+            "stored_params": stored & set(params)}
+
+
+def _always_returns(stmts):
+    if not stmts:
+        return False
+    last = stmts[-1]
+    if isinstance(last, (ast.Return, ast.Raise)):
+        return True
+    if isinstance(last, ast.If) and last.orelse:
+        return _always_returns(last.body) and _always_returns(last.orelse)
+    if isinstance(last, ast.Try) and not last.finalbody:
+        return (_always_returns(last.orelse) if last.orelse else _always_returns(last.body)) \
+            and all(_always_returns(h.body) for h in last.handlers)
+    return False
+
+
+def _has_return(node_or_list):
+    nodes = node_or_list if isinstance(node_or_list, list) else [node_or_list]
+    return any(isinstance(n, ast.Return) for st in nodes for n in ast.walk(st))
+
+
+def _structure_returns(stmts, make_assign):
+    """The statements of a function body with every `return E` replaced by
+    make_assign(E) and the code after an exiting guard moved into its `else:`, so
+    that the result has NO return and assigns the value exactly where the function
+    would have returned it.  None when a return sits in a loop / with / finally or
+    after a construct that may or may not return (not expressible without a jump)."""
+    out = []
+    for i, st in enumerate(stmts):
+        rest = stmts[i + 1:]
+        if isinstance(st, ast.Return):
+            out.append(make_assign(st.value if st.value is not None else ast.Constant(None)))
+            return out                      # anything after is dead
+        if not _has_return(st):
+            out.append(st)
+            continue
+        if isinstance(st, ast.If):
+            body_r, else_r = _always_returns(st.body), _always_returns(st.orelse) if st.orelse else False
+            if body_r and not st.orelse:
+                b = _structure_returns(st.body, make_assign)
+                r = _structure_returns(rest, make_assign) if rest else [make_assign(ast.Constant(None))]
+                if b is None or r is None:
+                    return None
+                out.append(ast.copy_location(ast.If(st.test, b, r), st))
+                return out
+            if st.orelse and (body_r or else_r) and not (body_r and else_r):
+                # one arm exits, the other falls through to the rest
+                if body_r:
+                    b = _structure_returns(st.body, make_assign)
+                    r = _structure_returns(list(st.orelse) + rest, make_assign)
+                else:
+                    b = _structure_returns(list(st.body) + rest, make_assign)
+                    r = _structure_returns(st.orelse, make_assign)
+                    if b is None or r is None:
+                        return None
+                    out.append(ast.copy_location(ast.If(st.test, b, r), st))
+                    return out
+                if b is None or r is None:
+                    return None
+                out.append(ast.copy_location(ast.If(st.test, b, r), st))
+                return out
+            if body_r and else_r:
+                b = _structure_returns(st.body, make_assign)
+                r = _structure_returns(st.orelse, make_assign)
+                if b is None or r is None:
+                    return None
+                out.append(ast.copy_location(ast.If(st.test, b, r), st))
+                return out
+            return None
+        if isinstance(st, ast.Try) and not st.finalbody and _always_returns([st]):
+            nb = _structure_returns(st.body, make_assign)
+            no = _structure_returns(st.orelse, make_assign) if st.orelse else []
+            nh = []
+            for h in st.handlers:
+                hb = _structure_returns(h.body, make_assign)
+                if hb is None:
+                    return None
+                nh.append(ast.copy_location(ast.ExceptHandler(h.type, h.name, hb), h))
+            if nb is None or no is None:
+                return None
+            out.append(ast.copy_location(ast.Try(nb, nh, no, []), st))
+            return out
+        return None
+    out.append(make_assign(ast.Constant(None)))
+    return out
 
 
 class _Ren(ast.NodeTransformer):
@@ -508,16 +593,52 @@ def _inline_helpers(tree, known=frozenset()):
         return inf, params
     closure_defs = {}
 
+    in_try = [0]
+
     def expand(call, cls, ctx_kind, target_stmt):
         r = closure_info(call) or info_for(call, cls)
         if r is None:
             return None
         inf, params = r
+        structured = None
         if ctx_kind in ("expr", "assign") and not inf["single_tail"]:
-            return None
-        counter[0] += 1
+            # several returns: structured conversion (`return E` -> `<target> = E`, code
+            # after an exiting guard moved under its else), for `<name> = h(...)` only
+            if not (ctx_kind == "assign" and len(target_stmt.targets) == 1
+                    and isinstance(target_stmt.targets[0], ast.Name)
+                    and not inf.get("stored_params")):
+                return None
+            # (the helper's own locals are renamed below, its parameters are replaced by
+            # the argument expressions, and the result is assigned last on every path,
+            # so the target's name cannot clash with anything)
+            structured = _structure_returns(
+                copy.deepcopy(inf["body"]),
+                lambda v: ast.Assign([ast.Name("__result__", ast.Store())], v))
+            if structured is None:
+                return None
         names = {x: f"{inf['name'].lstrip('_')}__{x}" for x in inf["locals"]}
         direct = False
+        inplace = None
+        if inf.get("stored_params"):
+            # `v = h(..., v)` where h re-binds its parameter and ends with `return <it>`:
+            # h works on the caller's v itself (v is overwritten by the result anyway);
+            # not inside a try of the caller, where a handler could observe v half-way
+            sp = inf["stored_params"]
+            last_ = inf["body"][-1] if inf["body"] else None
+            if not (len(sp) == 1 and ctx_kind == "assign" and len(target_stmt.targets) == 1
+                    and isinstance(target_stmt.targets[0], ast.Name)
+                    and isinstance(last_, ast.Return) and isinstance(last_.value, ast.Name)
+                    and last_.value.id in sp and not in_try[0]):
+                return None
+            pname = next(iter(sp))
+            # params as seen by the call (self already dropped for methods)
+            if pname not in params:
+                return None
+            arg = call.args[params.index(pname)] if params.index(pname) < len(call.args) else None
+            if not (isinstance(arg, ast.Name) and arg.id == target_stmt.targets[0].id):
+                return None
+            inplace = (pname, arg.id)
+        counter[0] += 1
         if ctx_kind == "assign" and inf["body"] and isinstance(inf["body"][-1], ast.Return) \
                 and len(target_stmt.targets) == 1:
             # `a, b = h(x)` with `return p, q` (locals of h): h's locals p, q ARE a, b
@@ -535,6 +656,17 @@ def _inline_helpers(tree, known=frozenset()):
                         names[r_.id] = t_.id
                     direct = True
         subst = dict(zip(params, call.args))
+        if inplace:
+            names[inplace[0]] = inplace[1]
+            subst.pop(inplace[0], None)
+            direct = True
+        if structured is not None:
+            names = dict(names)
+            names["__result__"] = target_stmt.targets[0].id
+            body = [_Ren(names, subst).visit(st) for st in structured]
+            for st_ in body:
+                ast.fix_missing_locations(ast.copy_location(st_, target_stmt))
+            return body
         body = [_Ren(names, subst).visit(copy.deepcopy(st)) for st in inf["body"]]
         if ctx_kind == "return":
             return body
@@ -569,6 +701,9 @@ def _inline_helpers(tree, known=frozenset()):
                     ast.copy_location(r, r) if hasattr(r, "lineno") else ast.copy_location(r, st)
                 out.extend(block(rep, cls, depth + 1))
                 continue
+            is_try = isinstance(st, ast.Try)
+            if is_try:
+                in_try[0] += 1
             for f in ("body", "orelse", "finalbody"):
                 sub = getattr(st, f, None)
                 if isinstance(sub, list) and sub and isinstance(sub[0], ast.stmt) \
@@ -576,6 +711,8 @@ def _inline_helpers(tree, known=frozenset()):
                     setattr(st, f, block(sub, cls, depth))
             for h in getattr(st, "handlers", []) or []:
                 h.body = block(h.body, cls, depth)
+            if is_try:
+                in_try[0] -= 1
             out.append(st)
         return out
 
